@@ -903,7 +903,26 @@ class Generator(TreeListener):
                         sl = sl - 1
                     elif isinstance(sl, slice):
                         # Modelica indexing starts from one;  Python from zero.
-                        sl = slice(None if sl.start is None else sl.start - 1, sl.stop, sl.step)
+                        first = 1 if sl.start is None else sl.start
+                        last = dim if sl.stop is None else sl.stop
+                        if all(isinstance(v, int) for v in (first, last, sl.step, dim)):
+                            # Constant bounds: every selected index must lie in [1, dim].  A
+                            # Python slice would wrap negative bounds around instead.
+                            picked = range(first, last + (1 if sl.step > 0 else -1), sl.step)
+                            if len(picked) == 0:
+                                sl = slice(0, 0, 1)
+                            elif min(picked[0], picked[-1]) < 1 or max(picked[0], picked[-1]) > dim:
+                                raise ValueError(
+                                    "Slice {}:{} of symbol {} is out of bounds. Indices should be in "
+                                    "range [1,{}] (Modelica uses 1-based indexing).".format(
+                                        first, last, s.name(), dim
+                                    )
+                                )
+                            else:
+                                end = picked[-1] - 1 + (1 if sl.step > 0 else -1)
+                                sl = slice(picked[0] - 1, None if end < 0 else end, sl.step)
+                        else:
+                            sl = slice(None if sl.start is None else sl.start - 1, sl.stop, sl.step)
                     else:
                         for_loop = self.for_loops[-1]
 
